@@ -268,14 +268,54 @@ func (e *c03env) observe(gate, res int) string {
 			bits = append(bits, 0)
 		}
 	}
-	fs := "None"
+	// pack the small fields into one hexadecimal numeral (decoded by P'/Q in Run/C03_run.v)
+	clamp := func(x, hi int) int {
+		if x < 0 {
+			return 0
+		}
+		if x > hi {
+			return hi
+		}
+		return x
+	}
+	maxlen := len(st)
+	if len(sc) > maxlen {
+		maxlen = len(sc)
+	}
+	if len(bits) > maxlen {
+		maxlen = len(bits)
+	}
+	at := func(l []int, j int) int {
+		if j < len(l) {
+			return l[j]
+		}
+		return 0
+	}
+	const hexd = "0123456789abcdef"
+	var sb strings.Builder
+	sb.WriteString("0x")
+	for j := maxlen - 1; j >= 0; j-- {
+		sb.WriteByte(hexd[(at(st, j)&3)|(at(sc, j)&1)<<2|(at(bits, j)&1)<<3])
+	}
+	nc := clamp(int(t.numComplete.Load()), 255)
+	by := clamp(int(t.BytesDownloaded()), 4095)
+	ic, cm := 0, 0
+	if serr == nil {
+		ic = 1
+	}
+	if t.Complete() {
+		cm = 1
+	}
+	for _, d := range []int{clamp(len(bits), 15), clamp(len(sc), 15), clamp(len(st), 15), by >> 8, (by >> 4) & 15, by & 15,
+		nc >> 4, nc & 15, cm, ic, clamp(res, 15), clamp(gate, 15)} {
+		sb.WriteByte(hexd[d])
+	}
 	if e.first || string(file) != string(e.last) {
-		fs = "(Some " + c03bytes(file) + ")"
 		e.last = file
 		e.first = false
+		return "(Q " + c03bytes(file) + " " + sb.String() + ")"
 	}
-	return fmt.Sprintf("(O %s %s %s %s %s %d %d %s %d %d)", fs, c03small(st), c03small(sc),
-		c03b(serr == nil), c03b(t.Complete()), t.numComplete.Load(), t.BytesDownloaded(), c03small(bits), gate, res)
+	return "(P " + sb.String() + ")"
 }
 
 func (e *c03env) fin(ths []*c03thr) string {
@@ -715,9 +755,45 @@ func c03clone(cs *c03case) *c03case {
 	return &c
 }
 
+// c03stress: many goroutines on few pieces, free-running (VERIF_TIER=race with a -race build:
+// supporting evidence for the atomicity assumption; the end state is checked by the oracle).
+func c03stress(r *verifhlib.Rng) *c03case {
+	pl := r.Range(1, 8)
+	n := r.Range(1, 4)
+	blob := c03blob(r, pl, n)
+	cs := &c03case{pl: pl, blob: blob, kind: "stress", free: true}
+	nw := r.Range(8, 16)
+	for k := 0; k < nw; k++ {
+		kinds := []string{"good", "good", "good", "corrupt", "short", "long", "shortread", "otherpiece", "index"}
+		kd := kinds[r.Intn(len(kinds))]
+		i := r.Intn(n)
+		if kd == "index" {
+			i = []int{n, n + 1}[r.Intn(2)]
+		}
+		th := c03writer(r, kd, blob, pl, i)
+		th.id = k
+		cs.ths = append(cs.ths, th)
+	}
+	// make sure every piece has at least one good writer in most runs
+	if r.Chance(80) {
+		for i := 0; i < n; i++ {
+			th := c03writer(r, "good", blob, pl, i)
+			th.id = len(cs.ths)
+			cs.ths = append(cs.ths, th)
+		}
+	}
+	return cs
+}
+
 func c03driver(ctx *verifhlib.Ctx) {
 	log.SetGlobalLogger(zap.NewNop().Sugar())
 	r := verifhlib.NewRng(ctx.Seed)
+	if ctx.Tier == "race" {
+		for i := 0; i < ctx.N; i++ {
+			c03run(ctx, c03stress(r.Fork()))
+		}
+		return
+	}
 	for _, cs := range c03seeds() {
 		// the same callers free-running
 		f := c03clone(cs)
